@@ -848,7 +848,19 @@ func (c *Ctx) tok13() {
 					if isAppendTo(x, "github.com/pascaldekloe/mqtt.SubscribeError") {
 						_, el := appendLiteral(p, i)
 						for _, v := range el {
-							if base, ok2 := indexBaseOf(v); ok2 && base != filters {
+							base, ok2 := indexBaseOf(v)
+							if ok2 {
+								// (a helper's parameter stands for the argument it was called with)
+								binds := pathBindings(p)
+								for d := 0; d < 4; d++ {
+									b, bound := binds[base]
+									if !bound || b == base {
+										break
+									}
+									base = b
+								}
+							}
+							if ok2 && base != filters {
 								ok = false
 								a.fail(p, i, "the failed filters are taken from %s, not from the request this SUBACK answers", Expr(base))
 							}
